@@ -156,6 +156,8 @@ func isPadSrc(s string) bool {
 }
 
 func runC03(w *World, r *Report) {
+	r.Rule("observers", "methods that formatting calls implicitly (String, Error, …) leave the value unchanged", 1)
+	observerRule(w, r, "observers", "openflow13", "common")
 	r.Rule("layout", "every specified field is written at its specified offset, width and byte order from the mapped Go field", 330)
 	r.Rule("presence", "setters of optional parts set the specified presence bit", 6)
 	r.Rule("lanes", "packed header words carry their sub-fields at the specified bits", 1)
